@@ -14,6 +14,7 @@ import hashlib
 import importlib
 import json
 import multiprocessing
+import multiprocessing.connection
 import os
 import sys
 import time
@@ -247,44 +248,111 @@ class Run:
             else:
                 self.extra.setdefault(k, v)
 
-    def shards(self, fn, args_list, workers=None):
-        """Run fn(sub_run, *args) for every args in a process pool; merge."""
+    def shards(self, fn, args_list, workers=None, watchdog=None):
+        """Run fn(sub_run, *args) for every args in child processes; merge.
+
+        watchdog (seconds): children re-arm a SIGALRM (default action: kill)
+        every time they call sub_run.guard(case); a child killed that way is
+        reported as a non-termination violation of the guarded case.  Used
+        only where termination is part of the property and the hang would be
+        inside C code that no Python-level budget can interrupt.
+        """
         workers = workers or min(len(args_list), os.cpu_count() or 1, 16)
-        if workers <= 1 or len(args_list) <= 1 or \
-                os.environ.get('VERIF_NOFORK'):
+        if os.environ.get('VERIF_NOFORK') and not watchdog:
             for i, a in enumerate(args_list):
                 sub = Run(self.prop, self.tier, self.seed, self.known)
                 fn(sub, *a)
                 self.merge(sub.state())
             return
         ctx = multiprocessing.get_context('fork')
-        jobs = [(self.prop, self.tier, self.seed, fn.__module__,
-                 fn.__qualname__, a) for a in args_list]
-        with ctx.Pool(workers, maxtasksperchild=None) as pool:
-            for st in pool.imap_unordered(_shard_entry, jobs):
-                if 'error' in st:
-                    raise HarnessError('shard failed:\n' + st['error'])
-                self.merge(st)
+        pending = list(enumerate(args_list))
+        pending.reverse()
+        live = {}
+        errors = []
+        while pending or live:
+            while pending and len(live) < workers:
+                i, a = pending.pop()
+                parent, childc = ctx.Pipe(duplex=False)
+                cur = ctx.Array('c', 16384, lock=False)
+                pr = ctx.Process(target=_shard_child, args=(
+                    childc, cur, self.prop, self.tier, self.seed, fn, a,
+                    watchdog))
+                pr.start()
+                childc.close()
+                live[i] = (pr, parent, cur, a)
+            ready = multiprocessing.connection.wait(
+                [v[1] for v in live.values()], timeout=1.0)
+            for i in list(live):
+                pr, parent, cur, a = live[i]
+                if parent in ready or not pr.is_alive():
+                    st = None
+                    try:
+                        if parent.poll(0.5 if pr.is_alive() else 0.05):
+                            st = parent.recv()
+                    except (EOFError, OSError):
+                        st = None
+                    pr.join(30)
+                    parent.close()
+                    del live[i]
+                    if st is None:
+                        raw = bytes(cur.raw).split(b'\0', 1)[0]
+                        if watchdog and pr.exitcode == -14 and raw:
+                            try:
+                                case = json.loads(raw.decode('utf-8'))
+                            except Exception:
+                                case = {'raw': raw.decode('utf-8', 'replace')}
+                            self.evaluations += 1
+                            self.violate(
+                                'non-termination', case,
+                                'a single case ran for more than %ds of wall '
+                                'clock (watchdog) and was killed' % watchdog)
+                        else:
+                            errors.append('shard %r died with exit code %r'
+                                          % (a, pr.exitcode))
+                    elif 'error' in st:
+                        errors.append(st['error'])
+                    else:
+                        self.merge(st)
+        if errors:
+            raise HarnessError('shard failed:\n' + '\n'.join(errors[:3]))
+
+    def guard(self, case):
+        """Arm the per-case watchdog (no-op outside watchdog shards)."""
+        g = getattr(self, '_guard', None)
+        if g is not None:
+            g(case)
 
 
-def _shard_entry(job):
-    prop, tier, seed, mod, qual, args = job
+def _shard_child(conn, cur, prop, tier, seed, fn, args, watchdog):
     try:
         try:
             import resource
-            lim = 3 * 1024 ** 3
+            lim = 4 * 1024 ** 3
             resource.setrlimit(resource.RLIMIT_AS, (lim, lim))
         except Exception:
             pass
-        m = importlib.import_module(mod)
-        fn = m
-        for part in qual.split('.'):
-            fn = getattr(fn, part)
         sub = Run(prop, tier, seed)
+        if watchdog:
+            import signal
+            signal.signal(signal.SIGALRM, signal.SIG_DFL)
+
+            def g(case):
+                data = json.dumps(_jsonable(case)).encode('utf-8')[:16000]
+                cur.raw = data + b'\0' * (16384 - len(data))
+                signal.setitimer(signal.ITIMER_REAL, watchdog)
+            sub._guard = g
         fn(sub, *args)
-        return sub.state()
+        if watchdog:
+            import signal
+            signal.setitimer(signal.ITIMER_REAL, 0)
+        st = sub.state()
     except BaseException:
-        return {'error': traceback.format_exc()}
+        st = {'error': traceback.format_exc()}
+    try:
+        conn.send(st)
+    finally:
+        conn.close()
+    os._exit(0)
 
 
 def _short(exc):
@@ -356,8 +424,10 @@ def write_evidence(mod, run, wall):
     # minimal self-validation against EVIDENCE.schema.json's generic rules
     assert isinstance(cov['evaluations'], int) and cov['evaluations'] >= 1
     assert isinstance(cov['samples'], list)
-    os.makedirs(os.path.join(ROOT, 'evidence'), exist_ok=True)
-    path = os.path.join(ROOT, 'evidence', pid + '.json')
+    evdir = os.environ.get('VERIF_EVIDENCE_DIR') or os.path.join(
+        ROOT, 'evidence')
+    os.makedirs(evdir, exist_ok=True)
+    path = os.path.join(evdir, pid + '.json')
     tmp = path + '.tmp'
     with open(tmp, 'w') as f:
         json.dump(ev, f, indent=1, sort_keys=True, default=repr)
